@@ -10,7 +10,7 @@ CONSTANTS
   ListenFam <- MCListenFam
   Strict = FALSE
   ReqFams = {0}
-  ChanNums = {16384, 1}
+  ChanNums = {16384, 1, 32768, 49152, 65535}
   LifeReqs <- MCLifeAbsent
   Txids = {"t1"}
   Pays = {"p"}
@@ -24,6 +24,7 @@ CONSTANTS
   Denied <- MCDenied
   Toks = {"none"}
   ResvTO = 30
+  QuotaDenied = {}
   MaxDepth = 5
 CONSTRAINT DepthBound
 ACTION_CONSTRAINT EmitEdge
